@@ -381,4 +381,69 @@ example : accepts (parse cfg0 Ip.classify .other [72,84,84,80,58,47,47,69,120,97
       !r.numeric && r.path.all PATHCHARS.mem && r.host.all plainOctet &&
       accepts (parse cfg0 Ip.classify .other (absolute r)) (fun r' => decide (sameTarget r r'))) = true := by decide
 
+/-- The same for CONNECT targets, whose canonical form is `authority(true)` = `host:port`: if the accepted host is a name of fewer
+than 255 octets from `parseHost`'s reg-name set that are also plain (this excludes `#`, which `TCHAR` contains), and no
+`append_domain` is configured, then `host:port` is accepted again with the same host and port. Missing: bracketed any-address
+(`[::]:80` → `:::80`, rejected), empty host (`.:80` → `:80`), truncation. -/
+theorem reparse_connect_partial (cfg : Config) (ip : Bytes → IpClass) (url : Bytes) (r : Parsed)
+    (h : parse cfg ip .connect url = .ok r)
+    (hname : r.numeric = false) (hne : r.host ≠ []) (hshort : r.host.length < SQUIDHOSTNAMELEN - 1)
+    (hplainhost : ∀ c ∈ r.host, REGNAME.mem c = true ∧ plainOctet c = true) (had : cfg.appendDomain = [])
+    (hlen : (authority r true).length ≤ MAX_URL - 1) :
+    ∃ r', parse cfg ip .connect (authority r true) = .ok r' ∧ sameTarget r r' := by
+  rcases parseConnect_ok (parse_connect h) with ⟨rawHost, rest, r2, p0, hh, hrest, hp, hf⟩
+  rcases finish_ok hf with ⟨_, _, _, _, _, _, _, hpw, _, hproto, himage, hlogin, _, hpath⟩
+  rcases finish_name_facts hf hname hshort had with ⟨_, hnoUp, hlast, hchars, hdd, hhead, hset, p, hpp, hp1, hp2, hrport⟩
+  have hrpath : r.path = [] := by
+    rw [hpath]
+    have : pathWhitespace cfg [] = some [] := by unfold pathWhitespace; simp
+    rw [this] at hpw
+    simpa using hpw.symm
+  have hfacts : ∀ c ∈ r.host, plainOctet c = true ∧ c ≠ 91 := by
+    intro c hc
+    have := regname_facts c
+    simp only [(hplainhost c hc).1, Bool.not_true, Bool.false_or, bne_iff_ne, ne_eq] at this
+    exact ⟨(hplainhost c hc).2, this⟩
+  have hauth : authority r true = r.host ++ 58 :: decimal p := by
+    unfold authority; simp [hrport]
+  rw [hauth] at hlen ⊢
+  -- parseHost on the canonical text
+  have hcolon : REGNAME.mem 58 = false := by decide
+  have htok : parseHostTok ip (r.host ++ 58 :: decimal p) = .ok (r.host, 58 :: decimal p) := by
+    unfold parseHostTok
+    cases hx : r.host with
+    | nil => exact absurd hx hne
+    | cons c0 rest0 =>
+      have hc0 : c0 ≠ 91 := (hfacts c0 (by rw [hx]; exact List.mem_cons_self)).2
+      have hall : ∀ c ∈ c0 :: rest0, REGNAME.mem c = true := by rw [← hx]; exact fun c hc => (hplainhost c hc).1
+      simp only [List.cons_append, hc0, ↓reduceIte]
+      rw [show c0 :: (rest0 ++ 58 :: decimal p) = (c0 :: rest0) ++ 58 :: decimal p from rfl,
+        takeWhile_append_stop _ _ _ _ hall hcolon, dropWhile_append_stop _ _ _ _ hall hcolon]
+      simp
+  have hfin := finish_again cfg ip PROTO_NONE [] r.host [] p hnoUp (fun c hc => (hfacts c hc).1) hchars had hlast hdd hhead
+    hp1 hp2 (by intro c hc; simp at hc) hset
+  have hparse : parse cfg ip .connect (r.host ++ 58 :: decimal p) = parseConnect cfg ip (r.host ++ 58 :: decimal p) := by
+    unfold parse
+    have h1 : ¬ ((r.host ++ 58 :: decimal p).length + cfg.appendDomain.length > MAX_URL - 1) := by
+      rw [had]; simp only [List.length_nil, Nat.add_zero]; omega
+    have h2 : ¬ (Method.connect = Method.star ∧ r.host ++ 58 :: decimal p = [42]) := by
+      intro ⟨hc, _⟩; exact absurd hc (by decide)
+    simp only [h1, ↓reduceIte, h2]
+  rw [hparse]
+  unfold parseConnect
+  rw [htok]
+  simp only [ne_eq, not_true_eq_false, ↓reduceIte, parsePortTok_decimal p hp1 hp2, List.isEmpty_nil, Bool.not_true,
+    Bool.false_eq_true]
+  rw [hfin]
+  refine ⟨_, rfl, ⟨hproto, himage, rfl, hrport, ?_⟩⟩
+  unfold pathOut
+  simp [hrpath, hproto]
+
+
+/-- non-vacuity: `Example.COM.:443` is accepted as host `example.com`, and `example.com:443` is accepted again as the same target -/
+example : accepts (parse cfg0 Ip.classify .connect [69,120,97,109,112,108,101,46,67,79,77,46,58,52,52,51])
+    (fun r => authority r true == [101,120,97,109,112,108,101,46,99,111,109,58,52,52,51] &&
+      r.host.all (fun c => REGNAME.mem c && plainOctet c) &&
+      accepts (parse cfg0 Ip.classify .connect (authority r true)) (fun r' => decide (sameTarget r r'))) = true := by decide
+
 end SquidModel.C30
